@@ -114,6 +114,15 @@ CLAIMS.update({
                 note='Trusted: oracles/o16_deleted.py; C01 gap filter for canonical-string comparisons.', technique='bounded frame-contract checking'),
 })
 
+CLAIMS.update({
+    'C14': dict(level='exploration', engine='bounded', text=B_NOTE + 'conservation (heavy atoms, charge, hydrogens), validity, idempotence, explicify/implicify inverse, '
+                'renumbering equivariance on corpus molecules decorated with the functional-group spellings of the rule tables; every rule on its own '
+                'instantiated pattern; the documented input-output pairs of the repository test table.',
+                note='Trusted: oracles/o14_rules.py (rule instantiation). Rule-driven rewriting through the matcher: no deductive obligation is within reach '
+                     '(DESIGN 5); the cache discipline of these methods is covered by C13. 17 rule / resonance defect families are known findings.',
+                technique='bounded relational contract checking (conservation, idempotence, equivariance)'),
+})
+
 NOT_BUILT = 'check under construction in this session - not claimed until its command exists and passes on the unchanged tree'
 
 NOT_APPLICABLE = {}   # pid -> reason (a property that contracts genuinely cannot decide)
